@@ -107,7 +107,10 @@ C04(e, pre, post, mon) ==
       \cup If(e.resp.ok /\ Nonce(post, a) # Nonce(pre, a) + 1, "C04: a successful transaction did not raise the sender's nonce by exactly one")
       \cup If(~e.resp.ok /\ Nonce(post, a) # Nonce(pre, a), "C04: a failed transaction changed the sender's nonce")
       \cup If(\E b \in (DOMAIN pre.accts \cup DOMAIN post.accts) \ {a} :
-                 Nonce(post, b) # Nonce(pre, b) /\ ~(EvmTx(pre, tx) /\ e.resp.ok /\ (IsContract(post, b) \/ IsContract(pre, b))),
+                 Nonce(post, b) # Nonce(pre, b)
+                 \* (contract execution sets the nonces of the contract accounts it creates or destroys - also of a created
+                 \* account that ends without code: the native ledger marks it as created by the EVM)
+                 /\ ~(EvmTx(pre, tx) /\ e.resp.ok /\ (IsContract(post, b) \/ IsContract(pre, b) \/ Acct(post, b).code = 1 \/ Acct(pre, b).code = 1)),
               "C04: a transaction changed the nonce of an account other than its sender")
       \cup If(e.resp.ok /\ tx.hash \in mon.delivered, "C04: the same signed transaction took effect twice")
   ELSE IF e.ev \in {"BeginBlock", "EndBlock", "Commit", "CheckTx", "Restart"} \/ (e.ev = "DeliverTx" /\ ~IsTx(e)) THEN
@@ -526,6 +529,17 @@ C15(e, pre, post, mon) ==
       If(post.props # pre.props \/ post.fprops # pre.fprops, "C15: a non-governance transaction changed a proposal")
    ELSE {})
   \cup
+  \* a recorded voter may vote (with the power recorded at submission) whatever became of it since
+  (IF IsTx(e) /\ ~e.resp.ok /\ e.tx.type = "voting" /\ e.tx.payload.prop \in DOMAIN pre.props THEN
+      LET tx == e.tx  p == pre.props[tx.payload.prop] IN
+      If(/\ tx.auth = "valid" /\ tx.nonce = Nonce(pre, tx.from) /\ tx.to = "zero" /\ tx.fromLen = 20 /\ tx.toLen = 20 /\ tx.amount = <<>>
+         /\ tx.gasPrice = pre.gov.gasPrice /\ ~BLt(Fee(tx, pre.gov), BMul(pre.gov.minTrxGas, pre.gov.gasPrice))
+         /\ BLeq(tx.gas, <<807, 775, 854, 36, 372, 223, 9>>) /\ BLeq(Fee(tx, pre.gov), Bal(pre, tx.from))
+         /\ tx.from \in DOMAIN p.voters /\ tx.payload.choice >= 0 /\ tx.payload.choice < Len(p.opts)
+         /\ post.h >= p.start /\ post.h <= p.end,
+         "C15: the well-formed vote of a recorded voter inside the voting window was refused")
+   ELSE {})
+  \cup
   (IF IsTx(e) /\ ~e.resp.ok /\ e.tx.type \in {"proposal", "voting"} THEN
       If(post.props # pre.props \/ post.fprops # pre.fprops,
          "C15: a refused vote or proposal changed a proposal (the latest accepted vote of each voter must stand)")
@@ -604,6 +618,13 @@ C19Commit(e, pre) ==
       \cup If(c.delegs # pre.delegs, "C19: delegatees returned by queries differ from what the block committed")
       \cup If(c.rewards # pre.rewards, "C19: rewards returned by queries differ from what the block committed")
       \cup If(c.props # pre.props \/ c.fprops # pre.fprops, "C19: proposals returned by queries differ from what the block committed")
+      \* the stakes of every owner, asked for owner by owner (another handler: it walks all delegatees)
+      \cup (IF "stakesOf" \in DOMAIN c /\ c.stakesOf # <<>> THEN
+              LET owners == {st.from : st \in AllStakes(pre)} IN
+              If(\E a \in owners : a \notin DOMAIN c.stakesOf \/ SeqSet(c.stakesOf[a]) # {st \in AllStakes(pre) : st.from = a},
+                 "C19: the stakes query of an owner does not return exactly the stakes the block committed for that owner")
+              \cup If(\E a \in DOMAIN c.stakesOf : a \notin owners, "C19: the stakes query returns stakes for an owner that has none")
+            ELSE {})
       \cup If("propsH" \in DOMAIN c /\ (c.propsH # pre.props \/ c.fpropsH # pre.fprops),
               "C19: a proposal the block committed is not (or not identically) returned by the query for its transaction hash")
   ELSE {}
